@@ -7,6 +7,11 @@ Relations (haptools/data/breakpoints.py)
   read   : Breakpoints.read(samples) on generated files, token/character level
   write  : Breakpoints.write() then Breakpoints.load() of the written file
   flookup: a file with labels / chromosome names of any length -> Breakpoints.read -> population_array, on characters
+  hist   : a history of calls (read file f / write file g / population_array) in one process that share ONE samples
+           set, ONE variants array and ONE order list: every call must answer as the first did, the written subset
+           must read back identical, and the objects must be what the caller made them after every call
+Every relation records its argument objects (variants array, samples list / set, labels list) after the call(s); agree
+demands that they are unchanged (wrappers lcaseA / ecaseA / rcaseA / flcaseA of C05_CheckHist).
 """
 import itertools
 import os
@@ -21,7 +26,8 @@ from .core import Relation, err_kind
 
 PROP = "C05"
 CLAIMED = True
-COQ_MODULES = ["C05_Check", "C05_Proofs", "C05_ProofsNp", "C05_ProofsCodec", "C05_ProofsText", "C05_ProofsFile"]
+COQ_MODULES = ["C05_Check", "C05_CheckHist", "C05_Proofs", "C05_ProofsNp", "C05_ProofsCodec", "C05_ProofsText", "C05_ProofsFile",
+               "C05_ProofsHist"]
 PROPERTY_MODULE = "C05_Property"
 ALLOWED_AXIOMS = []
 RULE = (
@@ -38,7 +44,13 @@ RULE = (
     "name with an underscore. flookup: harness-written files whose labels / chromosome names keep their full length "
     "(<= 6 / <= 10 characters, 7-8 character labels, 11-23 character contig names, pairs of contigs equal in their first "
     "10 characters, a position uint32 cannot hold), read and queried through 'U10' and 'U32' variant arrays; non-trivial "
-    "as for lookup. Distinct = distinct canonical JSON."
+    "as for lookup. hist: tables of 1-5 samples (80 % with every strand closed at 2^32-1), a shared samples set (none / "
+    "empty / proper subset / all / with an unknown name; set or frozenset), a shared order list or tuple (or the lookup's "
+    "samples derived from the shared set after the read), histories read-twice, read-write-read (plain and .gz), "
+    "read-look, read-look-read-look, look-twice, a seven-call round trip and random valid sequences of 2-6 calls over "
+    "three files (the source may be gzipped or overwritten); non-trivial = at least two calls receive the same argument "
+    "object. read: half of the cases with a samples set read the file twice with that set object. Distinct = distinct "
+    "canonical JSON."
 )
 TRUSTED = [
     "np.searchsorted(side='left') = the branch-free bisection C05_Model.np_search (numpy 2.x; compared with "
@@ -65,6 +77,10 @@ ASSUMPTIONS = [
     "fixes/C05_field_width.patch, corpus/C05/flookup_long_chrom_collision.json)",
     "a request that repeats a sample is answered with one row per distinct sample (C05_population_array_repeated_request); "
     "the property speaks of subsets and orders only, holds does not judge such requests",
+    "histories (relation hist): the file is harness-written from a table inside the writer's domain (distinct names, no "
+    "'#', labels <= 6 / chromosome names <= 10 characters, positions <= 2^32-1, ascending ends), files are read after they "
+    "exist and written / queried after a load succeeded; the samples argument of read is a set or frozenset (its documented "
+    "type), of population_array a list or tuple",
 ]
 
 # Switch for the integrator.  Breakpoints.__iter__ hands the tokens of a block line to
@@ -249,6 +265,27 @@ def build_bp(tbl, d, via_file=False):
 
 def variants_array(qs, pos_dtype="uint32", chrom_dtype="U10"):
     return np.array([(c, p) for c, p in qs], dtype=[("chrom", chrom_dtype), ("pos", np.dtype(pos_dtype))])
+
+
+def request_object(items, kind):
+    """the argument object handed to the implementation: built ONCE per case and passed to every call of the history;
+    what it holds afterwards is recorded with object_after."""
+    if items is None:
+        return None
+    return {"list": list, "tuple": tuple, "set": set, "frozenset": frozenset}[kind](items)
+
+
+def object_after(obj):
+    """elements of an argument object after the call(s); a set (no order of its own) sorted."""
+    if obj is None:
+        return None
+    if isinstance(obj, (set, frozenset)):
+        return sorted(str(x) for x in obj)
+    return [str(x) for x in obj]
+
+
+def array_after(V):
+    return [[str(c), int(p)] for c, p in V.tolist()]
 
 
 def ascending_table(tbl):
@@ -532,11 +569,11 @@ class Find(Relation):
 
 class Lookup(Relation):
     name = "lookup"
-    coq_module = "C05_Check"
-    coq_check = "check_lookup"
-    coq_case_type = "lcase"
-    coq_model = "model_lookup"
-    coq_imports = ["Tracts", "BpText", "C05_Model"]
+    coq_module = "C05_CheckHist"
+    coq_check = "check_lookupA"
+    coq_case_type = "lcaseA"
+    coq_model = "model_lookupA"
+    coq_imports = ["Tracts", "BpText", "C05_Model", "C05_Check"]
     budget = {"quick": 700, "thorough": 8000}
     anchors = [("haptools/data/breakpoints.py", "Breakpoints.population_array"),
                ("haptools/data/breakpoints.py", "Breakpoints._find_blocks")]
@@ -548,7 +585,7 @@ class Lookup(Relation):
             if rng.random() < 0.06:
                 tbl = shuffle_strand(rng, tbl)
             out.append({"tbl": tbl, "qs": gen_queries(rng, tbl, chroms), "req": gen_request(rng, tbl),
-                        "via_file": bool(rng.random() < 0.3)})
+                        "via_file": bool(rng.random() < 0.3), "req_kind": "list" if rng.random() < 0.35 else "tuple"})
         for j in range(max(3, n // 230) if tier == "quick" else 45):
             out.append(wide_lookup_case(rng, ("blocks", "edges", "beyond")[j % 3]))
         return out
@@ -574,12 +611,17 @@ class Lookup(Relation):
         d = tempfile.mkdtemp(prefix="hv_c05_")
         try:
             bp = build_bp(inp["tbl"], d, via_file=inp.get("via_file", False))
+            # the argument objects: looked at again after the call (they must be what they were)
+            V = variants_array(inp["qs"], inp.get("pos_dtype", "uint32"))
+            req = request_object(inp["req"], inp.get("req_kind", "tuple"))
             try:
-                arr = bp.population_array(variants_array(inp["qs"], inp.get("pos_dtype", "uint32")),
-                                          samples=None if inp["req"] is None else tuple(inp["req"]))
-                return {"ok": arr.tolist(), "shape": list(arr.shape), "dtype": str(arr.dtype)}
+                arr = bp.population_array(V, samples=req)
+                obs = {"ok": arr.tolist(), "shape": list(arr.shape), "dtype": str(arr.dtype)}
             except Exception as e:  # noqa
-                return {"err": err_kind(e), "msg": str(e)[:120]}
+                obs = {"err": err_kind(e), "msg": str(e)[:120]}
+            obs["vs_after"] = array_after(V)
+            obs["req_after"] = object_after(req)
+            return obs
         finally:
             shutil.rmtree(d, ignore_errors=True)
 
@@ -592,7 +634,9 @@ class Lookup(Relation):
             o = f"(Ok {arr_term(obs['ok'], it)})"
         else:
             o = f"(Err {L.z(obs.get('err', obs.get('kind', 99)))})"
-        return f"(mkl {tbl} {vs} {req} {o})"
+        vs_after = L.lst(obs.get("vs_after", inp["qs"]), lambda q: f"(mkvar {L.z(it('c:' + q[0]))} {L.z(q[1])})")
+        req_after = L.opt(obs.get("req_after", inp["req"]), lambda r: L.lst(r, lambda s: L.z(nm(s))))
+        return f"(mklA (mkl {tbl} {vs} {req} {o}) {vs_after} {req_after})"
 
     def nontrivial(self, inp, obs):
         return touches_boundary(inp["tbl"], inp["qs"])
@@ -706,11 +750,11 @@ def wide_codec_case(rng):
 
 class Codec(Relation):
     name = "codec"
-    coq_module = "C05_Check"
-    coq_check = "check_codec"
-    coq_case_type = "ecase"
-    coq_model = "model_codec"
-    coq_imports = ["Tracts", "BpText", "C05_Model"]
+    coq_module = "C05_CheckHist"
+    coq_check = "check_codecA"
+    coq_case_type = "ecaseA"
+    coq_model = "model_codecA"
+    coq_imports = ["Tracts", "BpText", "C05_Model", "C05_Check"]
     budget = {"quick": 400, "thorough": 4000}
     anchors = [("haptools/data/breakpoints.py", "Breakpoints.encode"),
                ("haptools/data/breakpoints.py", "Breakpoints.recode"),
@@ -723,7 +767,9 @@ class Codec(Relation):
             if rng.random() < 0.04:
                 tbl = shuffle_strand(rng, tbl)
             out.append({"tbl": tbl, "given": gen_given(rng, tbl), "qs": gen_queries(rng, tbl, chroms),
-                        "req": gen_request(rng, tbl), "via_file": bool(rng.random() < 0.3)})
+                        "req": gen_request(rng, tbl), "via_file": bool(rng.random() < 0.3),
+                        "given_kind": "list" if rng.random() < 0.5 else "tuple",
+                        "req_kind": "list" if rng.random() < 0.35 else "tuple"})
         for _ in range(max(2, n // 200) if tier == "quick" else 24):
             out.append(wide_codec_case(rng))
         return out
@@ -750,9 +796,18 @@ class Codec(Relation):
         d = tempfile.mkdtemp(prefix="hv_c05_")
         try:
             bp = build_bp(inp["tbl"], d, via_file=inp.get("via_file", False))
-            given = None if inp["given"] is None else tuple(inp["given"])
+            # ONE labels object for both encode calls, one variants array, one samples object: all looked at
+            # again at the end (they must be what they were)
+            given = request_object(inp["given"], inp.get("given_kind", "tuple"))
+            V = variants_array(inp["qs"])
+            req = request_object(inp["req"], inp.get("req_kind", "tuple"))
             obs = {}
             failed = False
+
+            def args_after():
+                obs["given_after"] = object_after(given)
+                obs["vs_after"] = array_after(V)
+                obs["req_after"] = object_after(req)
             try:
                 bp.encode(labels=given)
                 obs["enc"] = {"ok": {"data": self._data(bp), "labels": [[str(k), int(v)] for k, v in bp.labels.items()]}}
@@ -765,7 +820,7 @@ class Codec(Relation):
                     if obs["part"] is None:
                         obs["enc"] = {"err": 97}
             try:
-                arr = bp.population_array(variants_array(inp["qs"]), samples=None if inp["req"] is None else tuple(inp["req"]))
+                arr = bp.population_array(V, samples=req)
                 cells = arr.tolist()
                 if arr.dtype.kind != "U":
                     cells = [[[int(x) for x in c] for c in row] for row in cells]
@@ -775,6 +830,7 @@ class Codec(Relation):
             if failed:
                 # the object is half encoded with labels None: the remaining steps are not run (model: E_Skip)
                 obs["again"] = obs["rec"] = obs["rec_again"] = {"err": 98}
+                args_after()
                 return obs
             try:
                 bp.encode(labels=given)
@@ -791,6 +847,7 @@ class Codec(Relation):
                 obs["rec_again"] = {"ok": 0}
             except Exception as e:  # noqa
                 obs["rec_again"] = {"err": err_kind(e)}
+            args_after()
             return obs
         finally:
             shutil.rmtree(d, ignore_errors=True)
@@ -812,8 +869,11 @@ class Codec(Relation):
         arr = L.res(obs["arr"], lambda a: arr_term(a, cell))
         rec = L.res(obs["rec"], lambda t: table_term(t, it, cmi, nm))
         part = L.opt(obs.get("part"), lambda t: table_term(t, it, cmi, nm))
-        return (f"(mke {tbl} {given} {vs} {req} {enc} {part} {arr} {L.res(obs['again'], L.z)} {rec} "
-                f"{L.res(obs['rec_again'], L.z)})")
+        given_after = L.opt(obs.get("given_after", inp["given"]), lambda g: L.lst(g, lambda s: L.z(it(s))))
+        vs_after = L.lst(obs.get("vs_after", inp["qs"]), lambda q: f"(mkvar {L.z(it('c:' + q[0]))} {L.z(q[1])})")
+        req_after = L.opt(obs.get("req_after", inp["req"]), lambda r: L.lst(r, lambda s: L.z(nm(s))))
+        return (f"(mkeA (mke {tbl} {given} {vs} {req} {enc} {part} {arr} {L.res(obs['again'], L.z)} {rec} "
+                f"{L.res(obs['rec_again'], L.z)}) {given_after} {vs_after} {req_after})")
 
     def nontrivial(self, inp, obs):
         labs = {b[0] for _, s0, s1 in inp["tbl"] for b in s0 + s1}
@@ -996,11 +1056,11 @@ def write_lines(lines, path):
 
 class Read(Relation):
     name = "read"
-    coq_module = "C05_Check"
-    coq_check = "check_read"
-    coq_case_type = "rcase"
-    coq_model = "model_read"
-    coq_imports = ["Tracts", "BpText", "C05_Model"]
+    coq_module = "C05_CheckHist"
+    coq_check = "check_readA"
+    coq_case_type = "rcaseA"
+    coq_model = "model_readA"
+    coq_imports = ["Tracts", "BpText", "C05_Model", "C05_Check"]
     budget = {"quick": 250, "thorough": 3000}
     max_cases_per_shard = 60
     anchors = [("haptools/data/breakpoints.py", "Breakpoints.__iter__"),
@@ -1019,7 +1079,9 @@ class Read(Relation):
                 samples = [names[i] for i in rng.permutation(len(names))[:k]]
             else:
                 samples = names[:1] + ["absent"]
-            out.append({"lines": lines, "samples": samples, "gz": bool(rng.random() < 0.1)})
+            # twice: the file is read a second time (a new Breakpoints object) with the SAME set object
+            out.append({"lines": lines, "samples": samples, "gz": bool(rng.random() < 0.1),
+                        "twice": bool(rng.random() < (0.5 if samples is not None else 0.1))})
         return out
 
     def exhaustive(self, tier):
@@ -1038,21 +1100,33 @@ class Read(Relation):
         try:
             p = os.path.join(d, "in.bp" + (".gz" if inp.get("gz") else ""))
             write_lines(inp["lines"], p)
-            bp = Breakpoints(p, log=quiet_log())
-            try:
-                bp.read(samples=None if inp["samples"] is None else set(inp["samples"]))
-                return {"ok": data_chars(bp)}
-            except Exception as e:  # noqa
-                return {"err": err_kind(e), "msg": str(e)[:120]}
+            S = request_object(inp["samples"], "set")   # the caller's set: one object for every call
+
+            def one_read():
+                bp = Breakpoints(p, log=quiet_log())
+                try:
+                    bp.read(samples=S)
+                    return {"ok": data_chars(bp)}
+                except Exception as e:  # noqa
+                    return {"err": err_kind(e), "msg": str(e)[:120]}
+
+            obs = one_read()
+            if inp.get("twice"):
+                obs["again"] = one_read()
+            obs["samples_after"] = object_after(S)
+            return obs
         finally:
             shutil.rmtree(d, ignore_errors=True)
 
     def encode(self, inp, obs):
         if "ok" not in obs and "err" not in obs:
             obs = {"err": obs.get("kind", 99)}
-        samples = L.opt(inp["samples"], lambda s: L.lst(s, chars))
-        return (f"(mkr {L.b(STRICT_FIELD_WIDTH)} {lines_term(inp['lines'])} {samples} {ptab_term(inp['lines'])} "
-                f"{L.res(obs, ctable_term)})")
+        canon = None if inp["samples"] is None else sorted(set(inp["samples"]))
+        samples = L.opt(canon, lambda s: L.lst(s, chars))
+        after = L.opt(obs.get("samples_after", canon), lambda s: L.lst(s, chars))
+        again = L.opt(obs.get("again"), lambda o: L.res(o, ctable_term))
+        return (f"(mkrA (mkr {L.b(STRICT_FIELD_WIDTH)} {lines_term(inp['lines'])} {samples} {ptab_term(inp['lines'])} "
+                f"{L.res(obs, ctable_term)}) {after} {again})")
 
     def nontrivial(self, inp, obs):
         hdr = [ln[0] for ln in inp["lines"] if len(ln) == 1]
@@ -1085,6 +1159,8 @@ class Read(Relation):
             yield dict(inp, samples=None)
         if inp.get("gz"):
             yield dict(inp, gz=False)
+        if inp.get("twice"):
+            yield dict(inp, twice=False)
 
     def signature(self, inp, obs):
         return "Breakpoints.read " + ("raises" if "err" in obs else "returns")
@@ -1278,11 +1354,11 @@ class FLookup(Relation):
     and chromosome names are characters on both sides, the reader's field widths are inside the model."""
 
     name = "flookup"
-    coq_module = "C05_Check"
-    coq_check = "check_flookup"
-    coq_case_type = "flcase"
-    coq_model = "model_flookup"
-    coq_imports = ["Tracts", "BpText", "C05_Model"]
+    coq_module = "C05_CheckHist"
+    coq_check = "check_flookupA"
+    coq_case_type = "flcaseA"
+    coq_model = "model_flookupA"
+    coq_imports = ["Tracts", "BpText", "C05_Model", "C05_Check"]
     budget = {"quick": 90, "thorough": 1500}
     max_cases_per_shard = 45
     anchors = [("haptools/data/breakpoints.py", "Breakpoints.__iter__"),
@@ -1301,7 +1377,8 @@ class FLookup(Relation):
             if not qs:
                 qs = [[chroms[0], 5]]
             out.append({"tbl": tbl, "qs": qs, "req": gen_request(rng, tbl),
-                        "qwidth": "U10" if rng.random() < 0.8 else "U32"})
+                        "qwidth": "U10" if rng.random() < 0.8 else "U32",
+                        "req_kind": "list" if rng.random() < 0.35 else "tuple"})
         return out
 
     def exhaustive(self, tier):
@@ -1336,15 +1413,18 @@ class FLookup(Relation):
             path = os.path.join(d, "in.bp")
             write_lines(self.file_lines(inp["tbl"]), path)
             V = variants_array(inp["qs"], "uint32", inp.get("qwidth", "U10"))
-            obs = {"seen": [[str(c), int(p)] for c, p in V.tolist()]}
+            obs = {"seen": array_after(V)}
+            req = request_object(inp["req"], inp.get("req_kind", "tuple"))
             try:
                 bp = Breakpoints(path, log=quiet_log())
                 bp.read()
-                arr = bp.population_array(V, samples=None if inp["req"] is None else tuple(inp["req"]))
+                arr = bp.population_array(V, samples=req)
                 obs["ok"] = arr.tolist()
             except Exception as e:  # noqa
                 obs["err"] = err_kind(e)
                 obs["msg"] = str(e)[:120]
+            obs["qs_after"] = array_after(V)
+            obs["req_after"] = object_after(req)
             return obs
         finally:
             shutil.rmtree(d, ignore_errors=True)
@@ -1371,8 +1451,12 @@ class FLookup(Relation):
             o = "(Ok " + L.lst(obs["ok"], lambda row: L.lst(row, lambda c: f"({chars(c[0])}, {chars(c[1])})")) + ")"
         else:
             o = f"(Err {L.z(obs.get('err', obs.get('kind', 99)))})"
-        return (f"(mkfl {L.b(STRICT_FIELD_WIDTH)} {ctable_term(tbl)} {fint} {fflt} {ptab_term(self.file_lines(inp['tbl']))} "
-                f"{qs} {req} {o})")
+        qs_after = L.lst(obs.get("qs_after", seen) if isinstance(obs, dict) else seen,
+                         lambda q: f"({chars(q[0])}, {L.z(q[1])})")
+        req_after = L.opt(obs.get("req_after", inp["req"]) if isinstance(obs, dict) else inp["req"],
+                          lambda r: L.lst(r, chars))
+        return (f"(mkflA (mkfl {L.b(STRICT_FIELD_WIDTH)} {ctable_term(tbl)} {fint} {fflt} "
+                f"{ptab_term(self.file_lines(inp['tbl']))} {qs} {req} {o}) {qs_after} {req_after})")
 
     def nontrivial(self, inp, obs):
         return touches_boundary(inp["tbl"], inp["qs"])
@@ -1398,7 +1482,406 @@ class FLookup(Relation):
                 f"names-collide-after-10={k == 'collide'} label-longer-than-6={k == 'long-label'}")
 
 
-RELATIONS = [Find(), Lookup(), Codec(), Read(), Write(), FLookup()]
+# ---------------------------------------------------------------------------
+# histories: ONE samples object, ONE variants array, ONE order object through several calls
+
+HIST_TEMPLATES = {
+    "read-twice": [["read", 0], ["read", 0]],
+    "write-read": [["read", 0], ["write", 1], ["read", 1]],
+    "write-read-gz": [["read", 0], ["write", 2], ["read", 2]],
+    "read-look": [["read", 0], ["look"]],
+    "read-look-twice": [["read", 0], ["look"], ["read", 0], ["look"]],
+    "look-twice": [["read", 0], ["look"], ["look"]],
+    "round-and-back": [["read", 0], ["write", 1], ["read", 1], ["look"], ["write", 2], ["read", 2], ["read", 0]],
+}
+
+
+def valid_ops(ops):
+    """files are read after they exist; written and queried after something was loaded."""
+    files, cur = {0}, False
+    for op in ops:
+        if op[0] == "read":
+            if op[1] not in files:
+                return False
+            cur = True
+        elif not cur:
+            return False
+        elif op[0] == "write":
+            files.add(op[1])
+    return len(ops) >= 1
+
+
+def valid_hist(inp):
+    if not valid_ops(inp["ops"]):
+        return False
+    if inp.get("from_set"):
+        # the lookup's samples are derived from the shared set: the request must lie inside it
+        if inp["samples"] is None or inp["order"] is None or any(o not in inp["samples"] for o in inp["order"]):
+            return False
+    return True
+
+
+def gen_htable(rng, out_of_domain=False):
+    n = int(rng.integers(1, 6))
+    names = [NAMES[i] for i in rng.choice(len(NAMES), size=n, replace=False)]
+    k = int(rng.integers(1, 3))
+    chroms = [CHROMS[i] for i in sorted(rng.choice(len(CHROMS), size=k, replace=False).tolist())]
+    tbl = []
+    closed = bool(rng.random() < 0.8)   # every strand reaches a chromosome-end sentinel: lookups mostly answer
+    for nm in names:
+        st = []
+        for t in range(2):
+            blocks = []
+            for c in chroms:
+                ends = sorted(set(int(e) for e in rng.choice(GRID, size=int(rng.integers(1, 4)))))
+                if closed or rng.random() < 0.3:
+                    ends.append(BIG[1] if closed else int(rng.choice(BIG[:2])))
+                for e in ends:
+                    blocks.append([str(rng.choice(LABELS)), c, e, float(rng.choice(CMS[:10]))])
+            st.append(blocks)
+        tbl.append([nm, st[0], st[1]])
+    if out_of_domain:
+        r = rng.random()
+        if r < 0.35:
+            tbl[-1][0] = "#" + tbl[-1][0]              # the header lines of this sample are comments
+        elif r < 0.7:
+            tbl[0][1][0][0] = str(rng.choice(LONG_LABELS))   # refused by the reader (ValueError)
+        else:
+            tbl[0][2] = []                              # a strand without blocks
+    return tbl, chroms
+
+
+def gen_hist(rng, template=None):
+    tbl, chroms = gen_htable(rng, out_of_domain=rng.random() < 0.08)
+    names = [s[0] for s in tbl]
+    r = rng.random()
+    if r < 0.12:
+        samples = None
+    else:
+        k = int(rng.integers(0 if r < 0.2 else 1, len(names) + 1))
+        samples = [names[i] for i in rng.permutation(len(names))[:k]]
+        if rng.random() < 0.1:
+            samples.append("absent")
+    loaded = [nm for nm in names if samples is None or nm in samples]
+    r = rng.random()
+    if r < 0.2 or not loaded:
+        order = None
+    else:
+        k = int(rng.integers(1, len(loaded) + 1))
+        order = [loaded[i] for i in rng.permutation(len(loaded))[:k]]
+        if rng.random() < 0.05:
+            order.append("absent" if samples is not None and "absent" in samples else "nobody")
+        elif rng.random() < 0.04:
+            order.append(order[0])
+    if template is None:
+        keys = list(HIST_TEMPLATES) + ["random"] * 2
+        template = str(rng.choice(keys))
+    if template == "random":
+        ops = [["read", 0]]
+        files = {0}
+        for _ in range(int(rng.integers(1, 6))):
+            r = rng.random()
+            if r < 0.45:
+                ops.append(["read", int(rng.choice(sorted(files)))])
+            elif r < 0.75:
+                f = int(rng.integers(0, 3))
+                ops.append(["write", f])
+                files.add(f)
+            else:
+                ops.append(["look"])
+    else:
+        ops = [list(op) for op in HIST_TEMPLATES[template]]
+    qs = gen_queries(rng, tbl, chroms) or [[chroms[0], 5]]
+    inp = {"tbl": tbl, "samples": samples, "samples_kind": "set" if rng.random() < 0.85 else "frozenset",
+           "order": order, "order_kind": "list" if rng.random() < 0.5 else "tuple", "qs": qs, "ops": ops,
+           "gz0": bool(rng.random() < 0.15), "from_set": False}
+    if samples is not None and order is not None and all(o in samples for o in order) and rng.random() < 0.25:
+        inp["from_set"] = True
+    return inp
+
+
+class Hist(Relation):
+    """A short history of calls - read file f / write file g / population_array - in ONE process, every call of a kind
+    receiving the SAME argument object (the caller's samples set, the variants array, the order list / tuple).  After
+    each call the objects are looked at again."""
+
+    name = "hist"
+    coq_module = "C05_CheckHist"
+    coq_check = "check_hist"
+    coq_case_type = "hcase"
+    coq_model = "model_hist"
+    coq_imports = ["Tracts", "BpText", "C05_Model", "C05_Check"]
+    budget = {"quick": 110, "thorough": 1800}
+    max_cases_per_shard = 40
+    max_chars_per_shard = 70_000
+    anchors = [("haptools/data/breakpoints.py", "Breakpoints.__iter__"),
+               ("haptools/data/breakpoints.py", "Breakpoints.read"),
+               ("haptools/data/breakpoints.py", "Breakpoints.write"),
+               ("haptools/data/breakpoints.py", "Breakpoints.population_array")]
+
+    def generate(self, rng, n, tier):
+        out = []
+        keys = list(HIST_TEMPLATES)
+        for j in range(n):
+            # the first histories of a run cycle through the templates, the rest are drawn
+            out.append(gen_hist(rng, template=keys[j] if j < len(keys) else None))
+        return out
+
+    def exhaustive(self, tier):
+        # two samples; every subset of them as the shared set; every template; every order of the loaded samples
+        s = lambda a, b: [[a, "1", 5, 0.5], [b, "1", 9, 1.5]]
+        tbl = [["a", s("A", "B"), s("B", "A")], ["b_1", s("B", "B"), s("A", "B")]]
+        qs = [["1", p] for p in (1, 5, 6, 9)]
+        out = []
+        for samples in (None, [], ["a"], ["b_1"], ["a", "b_1"], ["b_1", "zz"]):
+            loaded = [n_ for n_ in ("a", "b_1") if samples is None or n_ in samples]
+            orders = [None] + [list(p) for k in range(1, len(loaded) + 1) for p in itertools.permutations(loaded, k)]
+            for tname, ops in HIST_TEMPLATES.items():
+                for order in orders:
+                    for from_set in (False, True):
+                        inp = {"tbl": tbl, "samples": samples, "samples_kind": "set", "order": order,
+                               "order_kind": "tuple", "qs": qs, "ops": [list(o) for o in ops], "gz0": False,
+                               "from_set": from_set}
+                        looks = any(o[0] == "look" for o in ops)
+                        if valid_hist(inp) and (looks or (order is None and not from_set)):
+                            out.append(inp)
+        return out
+
+    @staticmethod
+    def tokens(b):
+        """the tokens of a block line as Breakpoints.write renders them (relation write ties that to the code)"""
+        return [b[0], b[1], str(np.uint32(b[2])), str(np.float64(b[3]))]
+
+    @classmethod
+    def file0_lines(cls, tbl):
+        lines = []
+        for nm, s0, s1 in tbl:
+            for t, st in ((1, s0), (2, s1)):
+                lines.append([f"{nm}_{t}"])
+                lines += [cls.tokens(b) for b in st]
+        return lines
+
+    def run_impl(self, inp):
+        import gzip
+        from pathlib import Path
+
+        from haptools.data import Breakpoints
+
+        d = tempfile.mkdtemp(prefix="hv_c05_")
+        try:
+            paths = {0: os.path.join(d, "all.bp" + (".gz" if inp.get("gz0") else "")),
+                     1: os.path.join(d, "sub.bp"), 2: os.path.join(d, "sub.bp.gz")}
+            write_lines(self.file0_lines(inp["tbl"]), paths[0])
+            # the caller's objects, built once
+            S = request_object(inp["samples"], inp.get("samples_kind", "set"))
+            order = request_object(inp["order"], inp.get("order_kind", "tuple"))
+            V = variants_array(inp["qs"], "uint32", "U10")
+            obs = {"seen": array_after(V), "steps": []}
+            cur = None
+            for op in inp["ops"]:
+                if op[0] == "read":
+                    bp = Breakpoints(paths[op[1]], log=quiet_log())
+                    try:
+                        bp.read(samples=S)
+                        cur = bp
+                        r = {"ok": data_chars(bp)}
+                    except Exception as e:  # noqa
+                        r = {"err": err_kind(e), "msg": str(e)[:120]}
+                    obs["steps"].append({"r": r, "after": object_after(S)})
+                elif op[0] == "write":
+                    if cur is None:
+                        obs["steps"].append({"w": {"err": 97}})
+                        continue
+                    try:
+                        cur.fname = Path(paths[op[1]])
+                        cur.write()
+                        p = paths[op[1]]
+                        raw = gzip.open(p, "rb").read() if p.endswith(".gz") else open(p, "rb").read()
+                        ls = raw.decode().split("\n")
+                        w = {"ok": [ln.split("\t") for ln in (ls[:-1] if ls and ls[-1] == "" else ls)]}
+                    except Exception as e:  # noqa
+                        w = {"err": err_kind(e), "msg": str(e)[:120]}
+                    obs["steps"].append({"w": w})
+                else:
+                    if cur is None:
+                        obs["steps"].append({"l": {"err": 97}, "qs_after": array_after(V), "order_after": object_after(order)})
+                        continue
+                    # from_set: the caller builds the lookup's samples from the set it loaded with
+                    smp = tuple(s for s in order if s in S) if inp.get("from_set") else order
+                    try:
+                        arr = cur.population_array(V, samples=smp)
+                        lk = {"ok": arr.tolist()}
+                    except Exception as e:  # noqa
+                        lk = {"err": err_kind(e), "msg": str(e)[:120]}
+                    obs["steps"].append({"l": lk, "qs_after": array_after(V), "order_after": object_after(smp)})
+            return obs
+        finally:
+            shutil.rmtree(d, ignore_errors=True)
+
+    def encode(self, inp, obs):
+        tbl = [[nm, [[b[0], b[1], int(b[2]), fbits(b[3])] for b in s0], [[b[0], b[1], int(b[2]), fbits(b[3])] for b in s1]]
+               for nm, s0, s1 in inp["tbl"]]
+        ints, flts = [], []
+        for s_ in tbl:
+            for st in s_[1:]:
+                for b in st:
+                    if b[2] not in ints:
+                        ints.append(b[2])
+                    if b[3] not in flts:
+                        flts.append(b[3])
+        fint = L.lst(ints, lambda v: f"({L.z(v)}, {chars(str(np.uint32(v)))})")
+        fflt = L.lst(flts, lambda v: f"({L.z(v)}, {chars(str(np.float64(bits_f(v))))})")
+        canon = None if inp["samples"] is None else sorted(set(inp["samples"]))
+        steps = obs.get("steps") if isinstance(obs, dict) else None
+        if steps is None or len(steps) != len(inp["ops"]):
+            k = obs.get("kind", 99) if isinstance(obs, dict) else 99
+            steps = [{"r": {"err": k}, "after": canon} if op[0] == "read" else {"w": {"err": k}} if op[0] == "write"
+                     else {"l": {"err": k}, "qs_after": inp["qs"], "order_after": inp["order"]} for op in inp["ops"]]
+        seen = obs.get("seen") if isinstance(obs, dict) and obs.get("seen") is not None else inp["qs"]
+        # tables that occur several times in the case (the table itself, what each read returned) are bound once
+        tterms = [ctable_term(tbl)] + [ctable_term(st["r"]["ok"]) for st in steps if "r" in st and "ok" in st["r"]]
+        names, lets = {}, []
+        for t in tterms:
+            if t not in names and tterms.count(t) >= 2:
+                names[t] = f"t{len(names)}"
+                lets.append(f"let {names[t]} : ctable := {t} in ")
+        wterms = [lines_term(st["w"]["ok"]) for st in steps if "ok" in st.get("w", {})]
+        wnames = {}
+        for t in wterms:
+            if t not in wnames and wterms.count(t) >= 2:
+                wnames[t] = f"w{len(wnames)}"
+                lets.append(f"let {wnames[t]} : list (list str) := {t} in ")
+        tref = lambda t: names.get(t, t)
+        written = []
+        oterms = []
+        for op, st in zip(inp["ops"], steps):
+            if op[0] == "read":
+                r = st["r"]
+                rt = f"(Ok {tref(ctable_term(r['ok']))})" if "ok" in r else f"(Err {L.z(r['err'])})"
+                oterms.append(f"(ORead {rt} {L.opt(st.get('after'), lambda s: L.lst(s, chars))})")
+            elif op[0] == "write":
+                w = st["w"]
+                if "ok" in w:
+                    written += w["ok"]
+                oterms.append(f"(OWrite {L.res(w, lambda ls: wnames.get(lines_term(ls), lines_term(ls)))})")
+            else:
+                lk = st["l"]
+                if "ok" in lk:
+                    o = "(Ok " + L.lst(lk["ok"], lambda row: L.lst(row, lambda c: f"({chars(c[0])}, {chars(c[1])})")) + ")"
+                else:
+                    o = f"(Err {L.z(lk['err'])})"
+                qa = L.lst(st.get("qs_after", seen), lambda q: f"({chars(q[0])}, {L.z(q[1])})")
+                oterms.append(f"(OLook {o} {qa} {L.opt(st.get('order_after'), lambda s: L.lst(s, chars))})")
+        ops = L.lst(inp["ops"], lambda op: f"(HRead {L.z(op[1])})" if op[0] == "read"
+                    else f"(HWrite {L.z(op[1])})" if op[0] == "write" else "HLook")
+        ptab = ptab_term(self.file0_lines(inp["tbl"]) + written)
+        qs = L.lst(seen, lambda q: f"({chars(q[0])}, {L.z(q[1])})")
+        return (f"({''.join(lets)}mkh {L.b(STRICT_FIELD_WIDTH)} {tref(tterms[0])} {fint} {fflt} {ptab} "
+                f"{L.opt(canon, lambda s: L.lst(s, chars))} {qs} {L.opt(inp['order'], lambda s: L.lst(s, chars))} "
+                f"{ops} {L.lst(oterms)})")
+
+    @staticmethod
+    def shared_calls(inp):
+        kinds = [op[0] for op in inp["ops"]]
+        reads, looks = kinds.count("read"), kinds.count("look")
+        return ((inp["samples"] is not None and reads >= 2) or (inp["order"] is not None and looks >= 2)
+                or (bool(inp.get("from_set")) and reads >= 1 and looks >= 1))
+
+    def nontrivial(self, inp, obs):
+        return self.shared_calls(inp)
+
+    def classes(self, inp, obs):
+        ops = [[o[0]] + o[1:] for o in inp["ops"]]
+        tname = next((k for k, v in HIST_TEMPLATES.items() if v == ops), "other")
+        out = ["history:" + tname, "set:" + ("none" if inp["samples"] is None else inp.get("samples_kind", "set")),
+               "order:" + ("none" if inp["order"] is None else inp.get("order_kind", "tuple")), f"calls={min(len(ops), 7)}"]
+        if inp.get("from_set"):
+            out.append("lookup-samples-from-set")
+        if inp.get("gz0"):
+            out.append("gz-source")
+        if any(o[0] == "write" and o[1] == 2 for o in ops):
+            out.append("gz-written")
+        if any(o[0] == "write" and o[1] == 0 for o in ops):
+            out.append("source-overwritten")
+        if inp["samples"] is not None:
+            names = [s_[0] for s_ in inp["tbl"]]
+            out.append("subset:" + ("empty" if not inp["samples"] else "unknown-name" if any(x not in names for x in inp["samples"])
+                                    else "all" if set(inp["samples"]) == set(names) else "proper"))
+        steps = obs.get("steps", []) if isinstance(obs, dict) else []
+        if any("err" in st.get("r", {}) for st in steps):
+            out.append("read-raises")
+        if any("err" in st.get("l", {}) for st in steps):
+            out.append("lookup-raises")
+        return out
+
+    def shrink(self, inp):
+        def ok(c):
+            return valid_hist(c)
+
+        ops = inp["ops"]
+        for j in range(len(ops)):
+            c = dict(inp, ops=ops[:j] + ops[j + 1:])
+            if c["ops"] and ok(c):
+                yield c
+        tbl = inp["tbl"]
+        for j in range(len(tbl)):
+            nm = tbl[j][0]
+            c = dict(inp, tbl=tbl[:j] + tbl[j + 1:],
+                     samples=None if inp["samples"] is None else [x for x in inp["samples"] if x != nm],
+                     order=None if inp["order"] is None else [x for x in inp["order"] if x != nm])
+            if c["tbl"] and ok(c):
+                yield c
+        for j in range(len(inp["qs"])):
+            if len(inp["qs"]) > 1:
+                yield dict(inp, qs=inp["qs"][:j] + inp["qs"][j + 1:])
+        for j, (nm, s0, s1) in enumerate(tbl):
+            for t, st in ((1, s0), (2, s1)):
+                for i in range(len(st)):
+                    new = list(tbl[j])
+                    new[t] = st[:i] + st[i + 1:]
+                    yield dict(inp, tbl=tbl[:j] + [new] + tbl[j + 1:])
+        if inp["samples"] is not None:
+            for j in range(len(inp["samples"])):
+                c = dict(inp, samples=inp["samples"][:j] + inp["samples"][j + 1:])
+                if ok(c):
+                    yield c
+        if inp["order"] is not None:
+            for j in range(len(inp["order"])):
+                if len(inp["order"]) > 1:
+                    yield dict(inp, order=inp["order"][:j] + inp["order"][j + 1:])
+            if not inp.get("from_set"):
+                yield dict(inp, order=None)
+        if inp.get("from_set"):
+            yield dict(inp, from_set=False)
+        if inp.get("gz0"):
+            yield dict(inp, gz0=False)
+        if inp.get("samples_kind", "set") != "set":
+            yield dict(inp, samples_kind="set")
+
+    def mutate(self, inp, rng):
+        names = [s_[0] for s_ in inp["tbl"]]
+        for tname, ops in HIST_TEMPLATES.items():
+            for k in range(1, len(names) + 1):
+                c = dict(inp, ops=[list(o) for o in ops], samples=names[:k], samples_kind="set", order=None, from_set=False)
+                if valid_hist(c):
+                    yield c
+                c = dict(c, samples=names[-k:], order=list(reversed(names[-k:])), from_set=True)
+                if valid_hist(c):
+                    yield c
+
+    def signature(self, inp, obs):
+        steps = obs.get("steps", []) if isinstance(obs, dict) else []
+        n_ok = [len(st["r"]["ok"]) for st in steps if "ok" in st.get("r", {})]
+        what = ("a read raises" if any("err" in st.get("r", {}) for st in steps)
+                else "reads of one request return different numbers of samples" if len(set(n_ok)) > 1
+                else "a lookup raises" if any("err" in st.get("l", {}) for st in steps)
+                else "lookups of one request return different numbers of rows"
+                if len({len(st["l"]["ok"]) for st in steps if "ok" in st.get("l", {})}) > 1 else "every call answers")
+        return (f"history of calls sharing their argument objects: {what} shared-set={inp['samples'] is not None} "
+                f"written-and-read-back={any(o[0] == 'write' for o in inp['ops'])}")
+
+
+RELATIONS = [Find(), Lookup(), Codec(), Read(), Write(), FLookup(), Hist()]
 
 LEVEL_TEXT = (
     "Coq theorems over all block tables, query lists, sample requests, label orders and token files (no size bound) about "
@@ -1408,15 +1891,18 @@ LEVEL_TEXT = (
     "composition write -> read -> population_array on the strings of the table; the model is tied to the code on every "
     "run by evaluating, inside Coq, model-vs-implementation agreement and the property's finite checker (written with "
     "label_at, not with the model) on generated cases incl. every block end, end+1, 1, beyond-last query and the width "
-    "boundaries 255|256|257 blocks / labels and 2^31, 2^32 positions."
+    "boundaries 255|256|257 blocks / labels and 2^31, 2^32 positions, and on histories of calls that share one samples "
+    "set / variants array / order list (every read returns the requested samples of the table its file holds, the "
+    "written subset reads back identical, no argument object is changed)."
 )
 LEVEL_NOTE = (
     "Trusted: Coq kernel/vm_compute; the hand-written model (validated differentially, np.searchsorted's bisection "
     "included); numpy's str<->uint32/float64 codecs and csv tab splitting (Section variables with round-trip hypotheses in "
     "bp_roundtrip; recorded tables in the correspondence). Out of the codec's domain and only compared for agreement: "
     "repeated labels given to encode (C05_encode_repeated_given_collides), strands without blocks (recode raises ValueError "
-    "there), tables whose block ends are not ascending. Open finding (switch STRICT_FIELD_WIDTH, off): the unrepaired "
-    "reader truncates chromosome names to 10 characters silently; until fixes/C05_field_width.patch is applied, files with "
-    "longer chromosome names are compared with the (truncating) model only."
+    "there), tables whose block ends are not ascending. Since fix 0bcb215 the reader refuses labels > 6 / chromosome names "
+    "> 10 characters (switch STRICT_FIELD_WIDTH, on; off = the truncating reader before it, compared with the truncating "
+    "model only). Arguments handed to read / population_array / encode are compared with what they were before the call "
+    "(agree); that two calls with one argument object answer alike is judged on histories (relation hist)."
 )
 TECHNIQUE = "Coq proof by induction on block/variant/line lists + vm_compute-evaluated correspondence against the implementation"
